@@ -221,8 +221,9 @@ def run_tlc(module, cfg=None, workers=None, timeout=3600, simulate=None, depth=N
     m = re.search(r"depth of the complete state graph search is (\d+)", out)
     if m:
         res.depth = int(m.group(1))
-    for m in re.finditer(r"<(\w+) line \d+, col \d+ to line \d+, col \d+ of module (\w+)>: (\d+):(\d+)", out):
-        res.coverage[m.group(1)] = (int(m.group(3)), int(m.group(4)))
+    for m in re.finditer(r"<(\w+) line \d+, col \d+ to line \d+, col \d+ of module (\w+)(?: \([\d ]+\))?>: (\d+):(\d+)", out):
+        a, b = res.coverage.get(m.group(1), (0, 0))
+        res.coverage[m.group(1)] = (a + int(m.group(3)), b + int(m.group(4)))
     m = re.search(r"Invariant (\w+) is violated", out)
     if m:
         res.violation = m.group(1)
